@@ -233,4 +233,33 @@ PROPS['C15'] = {
     'level_note': 'Processing steps, pandas and os.path summarised; liveness of the whole run is bounded only.',
 }
 
+PROPS['C05'] = {
+    'contracts': ['contracts.gate:Density2dArguments'],
+    'bounded': True,
+    'level': 'other',
+    'explanation': 'BOUNDED for the gate itself. Proved only: other than two channels and fewer than two events are refused with '
+                   'ValueError before anything is computed (arrays and samples, symbolic sizes). The histogram / smoothing / cumulative cut / '
+                   'bin-to-event mapping of gate.density2d is built on object arrays of Python lists (np.frompyfunc), argsort/cumsum/nonzero '
+                   'and scikit-image contours, which the VC generator does not model; a proof of the cut on a hand model would be a different '
+                   'family. Every clause of C05 (bin atomicity, no out-of-grid event, at least ceil(f*n) kept and minimality, density order, '
+                   'order independence, monotonicity in f, replay with returned edges/mask, error cases) is decided by the bounded stand-in '
+                   'on the real function (domain in coverage.bounded).',
+    'level_note': 'bounded stand-in decides; only argument validation is proved.',
+    'technique': 'bounded check of the real function (stated bound) + contract-based proof of the argument validation paths',
+}
+PROPS['C14'] = {
+    'contracts': ['contracts.fcsio:TextSegmentEarlyExits'],
+    'bounded': True,
+    'level': 'other',
+    'explanation': 'BOUNDED for the tokenizer itself. Proved only (file model, symbolic offsets and content): a supplemental segment without '
+                   'delimiter, a segment shorter than declared and a primary segment not starting with the delimiter raise ValueError; an '
+                   'empty declared extent gives ({}, None). Equivalence of the backward delimiter-run scan with the left-to-right escaping '
+                   'rule needs an induction over the run structure of strings that neither z3 nor cvc5 carries, and the planned '
+                   'bounded-symbolic run (opaque atoms) was not built; the clause is decided by the bounded stand-in: every string over '
+                   '{delimiter, a, b} up to length 9 (quick) / 12 (thorough) as primary and supplemental segment against an independent '
+                   'left-to-right tokenizer, plus encode/decode round trips through whole files.',
+    'level_note': 'bounded stand-in decides; only the early exits are proved.',
+    'technique': 'bounded exhaustive check of the real function (stated bound) + contract-based proof of the early-exit paths',
+}
+
 NOT_APPLICABLE = {}
